@@ -116,6 +116,23 @@ Lemma registry_matches_spec ds s :
   end.
 Proof. unfold open_workbook. rewrite reg_get_register_all. reflexivity. Qed.
 
+Lemma register_all_snoc pre names c :
+  register_all (pre ++ [(names, c)]) = decorate (register_all pre) (names, c).
+Proof. unfold register_all. rewrite fold_left_app. reflexivity. Qed.
+
+(* histories: registrations and opens interleaved, starting after the registrations [pre] *)
+Lemma run_ops_history ops : forall pre,
+  run_ops (register_all pre) ops = map answer (history pre ops).
+Proof.
+  induction ops as [|[names c|s] t IH]; intros pre; simpl.
+  - reflexivity.
+  - rewrite <- register_all_snoc. apply IH.
+  - rewrite IH, registry_matches_spec. reflexivity.
+Qed.
+
+Lemma run_ops_history_fresh ops : run_ops [] ops = map answer (history [] ops).
+Proof. exact (run_ops_history ops []). Qed.
+
 Lemma unknown_opens_nothing (r : registry) (s : str) e tr :
   open_workbook r s = (Err e, tr) -> e = NotImplementedError /\ tr = [] /\ reg_get r s = None.
 Proof.
